@@ -245,7 +245,8 @@ func (t *truth) live() (live map[int]bool, keptRef map[int]bool) {
 }
 
 // the set Delete(x) must remove when AutoGC is on: least set containing x, closed under
-// "untagged stored manifest whose subject (a manifest) was removed" and
+// "untagged stored manifest whose subject (a manifest) was removed and that no surviving
+// node lists (subject links of its own referrers do not count)" and
 // "untagged stored node that had predecessors, all of which were removed".
 func (t *truth) gone(x int) map[int]bool {
 	gone := map[int]bool{x: true}
@@ -256,12 +257,22 @@ func (t *truth) gone(x int) map[int]bool {
 			if gone[i] || !t.stored[i] || t.tagged(i) {
 				continue
 			}
-			if n.Subject >= 0 && gone[n.Subject] && t.g.Nodes[n.Subject].IsManifest() {
-				gone[i] = true
-				changed = true
-				continue
-			}
 			ps := t.preds(i)
+			if n.Subject >= 0 && gone[n.Subject] && t.g.Nodes[n.Subject].IsManifest() {
+				// a referrer goes with its subject unless a surviving node lists it
+				// (links of its own referrers, i.e. subject links, do not hold it)
+				held := false
+				for _, p := range ps {
+					if !gone[p] && t.g.Nodes[p].Subject != i {
+						held = true
+					}
+				}
+				if !held {
+					gone[i] = true
+					changed = true
+					continue
+				}
+			}
 			all := len(ps) > 0
 			for _, p := range ps {
 				if !gone[p] {
@@ -703,21 +714,22 @@ func runCase(g *dag.Graph, ops []op, seed uint64) {
 		if failed {
 			continue // the reference state is no longer aligned with the store
 		}
-		// known finding (exactly this mechanism): the cascade removed a referrer that a
-		// surviving node still lists.  Only reachable when everything above held, i.e. the
-		// removed set is exactly the least cascade set, so the node went by the referrer rule.
+		// never a node that a surviving node still lists: a removed node (other than the
+		// target) has no surviving predecessor except referrers of its own (a subject link
+		// does not keep the subject alive; a tagged referrer survives its subject)
 		for y := range cascade {
 			if y == o.N {
 				continue
 			}
 			for _, p := range g.Preds(y) {
-				if expStored[p] {
-					run.OracleFail(id, "delete-referrer-still-linked",
-						fmt.Sprintf("op %d (%s): referrer %d was removed although surviving node %d links to it graph=%s ops=%s",
-							oi, o, y, p, strings.Join(g.Describe(), " "), rep.Ops), rep)
-					run.Count("known:referrer-still-linked")
+				if expStored[p] && g.Nodes[p].Subject != y {
+					fail("delete-removed-linked", fmt.Sprintf("op %d (%s): node %d was removed although surviving node %d lists it", oi, o, y, p))
+					failed = true
 				}
 			}
+		}
+		if failed {
+			continue
 		}
 		tr.stored, tr.tags, tr.digidx, tr.strays = expStored, expTags, expDig, expStrays
 	}
